@@ -40,7 +40,7 @@ def run(prop, tier):
         raise Machinery(f"MC_Asymptotics: vacuous run, actions never taken: {missing}")
     if not res.cases_path:
         raise Machinery("MC_Asymptotics printed no cases")
-    cases = open(res.cases_path).read().splitlines()
+    cases = sorted(open(res.cases_path).read().splitlines())   # TLC's workers print in a run-dependent order
     rnd = random.Random(sd)
     rnd.shuffle(cases)
     backends = ["numpy"] + (OTHERS if tier == "thorough" else [OTHERS[sd % 3]])
